@@ -1148,3 +1148,84 @@ def big_checkpoint_spec():
     full = {t["name"]: 1.0 for t in tasks}
     ws = [{"name": "W%d" % i, "skills": dict(full), "cost": float(1 + i), "absence": [7 * w + 5 + (i % 2) for w in range(40)]} for i in range(3)]
     return {"tasks": tasks, "links": links, "teams": [{"name": "TM0", "targets": list(range(40)), "workers": ws}], "label": "big-checkpoint"}
+
+
+def usage_specs():
+    """the same kinds of model reached through other legitimate ways of building the object graph (round 13):
+    copy.copy twins whose run-time containers are still the template's, user subclasses with value equality or with len()/truth value,
+    a project created first and filled afterwards, calendars handed over empty and filled later, a workplace of capacity zero"""
+    out = []
+    # (U1) three welders - two of them copy.copy twins of the first - on a hull task, next to a second task; two machine twins on a facility task
+    welders = [{"name": "welder0", "skills": {"hull": 1.0, "deck": 1.0}, "cost": 5.0}, {"name": "welder1", "skills": {"hull": 1.0, "deck": 1.0}, "cost": 2.0, "copy_of": "welder0"},
+               {"name": "welder2", "skills": {"hull": 1.0}, "cost": 0.0, "copy_of": "welder0", "absence": [2]}]
+    out.append({"tasks": [{"name": "hull", "work": 9.0}, {"name": "deck", "work": 4.0}], "links": [], "teams": [{"name": "TM0", "targets": [0, 1], "workers": welders}], "label": "usage:worker-twins-by-copy"})
+    ops = [{"name": "op%d" % i, "skills": {"mill": 1.0, "drill": 1.0}, "fskills": {"M0": 1.0, "M1": 1.0}, "cost": 1.0} for i in range(2)]
+    if True:
+        ops[1]["copy_of"] = "op0"
+    out.append({"tasks": [{"name": "mill", "work": 4.0, "nf": True}, {"name": "drill", "work": 3.0, "nf": True}], "links": [],
+                "components": [{"name": "K0", "tasks": [0]}, {"name": "K1", "tasks": [1]}],
+                "workplaces": [{"name": "shop", "cap": 2.0, "targets": [0, 1], "facilities": [{"name": "M0", "skills": {"mill": 1.0, "drill": 1.0}, "cost": 3.0}, {"name": "M1", "skills": {"mill": 1.0, "drill": 1.0}, "cost": 4.0, "copy_of": "M0"}]}],
+                "teams": [{"name": "TM0", "targets": [0, 1], "workers": ops}], "label": "usage:machine-and-operator-twins-by-copy"})
+    # (U2) two docks, the second a copy.copy twin of the first, one hull each
+    out.append({"tasks": [{"name": "hullA", "work": 3.0, "nf": True}, {"name": "hullB", "work": 4.0, "nf": True}], "links": [],
+                "components": [{"name": "A", "tasks": [0], "space": 1.0}, {"name": "B", "tasks": [1], "space": 1.0}],
+                "workplaces": [{"name": "dock1", "cap": 1.0, "targets": [0], "facilities": [{"name": "crane1", "skills": {"hullA": 1.0}, "cost": 1.0}]},
+                               {"name": "dock2", "cap": 1.0, "targets": [1], "facilities": [{"name": "crane2", "skills": {"hullB": 1.0}, "cost": 1.0}], "copy_of": "dock1"}],
+                "teams": [{"name": "TM0", "targets": [0, 1], "workers": [{"name": "r%d" % i, "skills": {"hullA": 1.0, "hullB": 1.0}, "fskills": {"crane1": 1.0, "crane2": 1.0}, "cost": 1.0} for i in range(2)]}],
+                "label": "usage:workplace-twin-by-copy"})
+    # (U3) value-equal twins: two fitters of the same name and skills in different teams (and two equal machines)
+    for works in ((4.0, 1.0), (1.0, 4.0), (2.0, 2.0)):
+        out.append({"tasks": [{"name": "long", "id": "T0", "work": works[0]}, {"name": "short", "id": "T1", "work": works[1]}], "links": [],
+                    "teams": [{"name": "TM0", "targets": [1], "workers": [{"name": "fitter", "id": "Wa", "skills": {"long": 1.0, "short": 1.0}, "cost": 1.0}]},
+                              {"name": "TM1", "targets": [0], "workers": [{"name": "fitter", "id": "Wb", "skills": {"long": 1.0, "short": 1.0}, "cost": 2.0}]}],
+                    "value_eq": True, "label": "usage:value-equal-workers:%s" % (works,)})
+    out.append({"tasks": [{"name": "cut", "id": "T0", "work": 3.0, "nf": True}, {"name": "cut", "id": "T1", "work": 2.0, "nf": True}], "links": [],
+                "components": [{"name": "K0", "tasks": [0]}, {"name": "K1", "tasks": [1]}],
+                "workplaces": [{"name": "shop", "cap": 2.0, "targets": [0, 1], "facilities": [{"name": "saw", "id": "S0", "skills": {"cut": 1.0}, "cost": 1.0}, {"name": "saw", "id": "S1", "skills": {"cut": 1.0}, "cost": 2.0}]}],
+                "teams": [{"name": "TM0", "targets": [0, 1], "workers": [{"name": "sawyer", "id": "Wa", "skills": {"cut": 1.0}, "fskills": {"saw": 1.0}, "cost": 1.0}, {"name": "sawyer", "id": "Wb", "skills": {"cut": 1.0}, "fskills": {"saw": 1.0}, "cost": 1.0}]}],
+                "value_eq": True, "label": "usage:value-equal-machines-and-operators"})
+    # (U4) project created first and empty (container subclasses with len()), everything appended afterwards
+    for fl in list(flows(3, ("FS", "SS"), (1, 2)))[::5]:
+        out.append(dict(with_teams(fl, "POOL2"), build_style="bottom-up", label="usage:bottom-up:flow"))
+    for sp in list(fac_specs("quick"))[::17]:
+        out.append(dict(sp, build_style="bottom-up", label="usage:bottom-up:" + sp["label"]))
+    # (U5) calendars handed to the constructors while still empty and filled afterwards through the caller's reference
+    out.append({"tasks": [{"name": "T0", "work": 4.0}, {"name": "T1", "work": 3.0, "nf": True}], "links": [], "components": [{"name": "C0", "tasks": [1]}],
+                "workplaces": [{"name": "WP0", "cap": 1.0, "targets": [1], "facilities": [{"name": "F0", "skills": {"T1": 1.0}, "cost": 2.0, "absence_late": [1, 3]}]}],
+                "teams": [{"name": "TM0", "targets": [0, 1], "workers": [{"name": "W0", "skills": {"T0": 1.0}, "cost": 1.0, "absence_late": [0, 2]}, {"name": "W1", "skills": {"T1": 1.0}, "fskills": {"F0": 1.0}, "cost": 3.0, "absence_late": [2]}]}],
+                "label": "usage:calendars-filled-after-construction"})
+    # (U6) a workplace declared with capacity zero (a software lab) asked first under the skill-points rule, next to a hall of capacity one
+    for wpr in ("SSP", "FSS"):
+        out.append({"tasks": [{"name": "rack", "work": 3.0, "nf": True, "wprule": wpr}], "links": [], "components": [{"name": "R", "tasks": [0], "space": 1.0}],
+                    "workplaces": [{"name": "lab", "cap": 0, "targets": [0], "facilities": [{"name": "bench", "skills": {"rack": 2.0}}, {"name": "bench2", "skills": {"rack": 2.0}}]},
+                                   {"name": "hall", "cap": 1.0, "targets": [0], "facilities": [{"name": "rig", "skills": {"rack": 1.0}}]}],
+                    "teams": [{"name": "TM0", "targets": [0], "workers": [{"name": "W0", "skills": {"rack": 1.0}, "fskills": {"bench": 1.0, "bench2": 1.0, "rig": 1.0}}]}],
+                    "label": "usage:zero-capacity-workplace:%s" % wpr})
+    return out
+
+
+def usage_items(rules=("TSLACK",)):
+    out = []
+    for sp in usage_specs():
+        for rule in rules:
+            out.append((sp, {"rule": rule, "max_time": seq_bound(sp) + 10}))
+            out.append((sp, {"rule": rule, "absence": [1], "max_time": seq_bound(sp) + 12}))
+        out.append((sp, {"rule": rules[0], "presim": 1, "max_time": seq_bound(sp) + 10}))  # a second run on the same objects
+    return out
+
+
+def revised_calendar_items(rules=("TSLACK",)):
+    """runs stopped at step k whose continuation is given ANOTHER project-wide calendar (and another automatic-task flag) than the part before the stop"""
+    out = []
+    models = [with_teams(fl, "POOL2") for fl in list(flows(3, ("FS", "SS"), (2, 3)))[::4]] + auto_component_specs()[::3] + list(fac_specs("quick"))[::23]
+    for sp in models:
+        for k in (2, 3):
+            for a1, a2 in (([1, 5, 6], [4]), ([4, 5], []), ([], [3, 4]), ([0, 3, 7], [3, 5])):
+                for f1, f2 in ((False, False), (True, False), (False, True)):
+                    out.append((sp, {"rule": rules[0], "resume_from": k, "first_absence": a1, "absence": a2, "first_auto_abs": f1, "auto_abs": f2, "max_time": seq_bound(sp) + 16}))
+    return out
+
+
+def extra_items(rules=("TSLACK",), calendars=True):
+    """round 13: other ways of building the object graph, and continuations planned with another calendar / flag than the part before the stop"""
+    return usage_items(rules) + (revised_calendar_items(rules) if calendars else [])
